@@ -297,3 +297,10 @@ Section Cli.
     if fl_overwrite fl then empty_db
     else match fs_lookup path fs0 with Some d => d | None => empty_db end.
 End Cli.
+
+Arguments MkArgs {sfeat}.
+Arguments a_tms_ok {sfeat}.
+Arguments a_source {sfeat}.
+Arguments a_target {sfeat}.
+Arguments a_ids {sfeat}.
+Arguments a_flags {sfeat}.
